@@ -191,7 +191,7 @@ def run_sys_shard(bindir, seed, n, prof, outfile):
         rc, out = vc.run("%s/vharness sys --seed %d --first %d --n %d --profile %s --out %s" %
                          (bindir, seed, first, n, prof, part), timeout=1200)
         parts.append(part)
-        if rc == 0:
+        if rc == 0 or rc == 4:
             break
         nxt = None
         if os.path.exists(part):
@@ -247,6 +247,7 @@ def sys_stream_for(name, profiles, quick_n, thorough_n, release=False, shards_pe
     def stream(ctx):
         res = StreamResult(name)
         res.known_ids = set()
+        os.makedirs(ctx.scratch, exist_ok=True)
         bindir = ctx.harness("core", release=release)
         drv = ctx.driver()
         n = ctx.scale(quick_n, thorough_n)
